@@ -780,3 +780,230 @@ Proof.
     intro i. rewrite Rg, Eg. reflexivity.
   - tauto.
 Qed.
+
+(* ------------------------------------------------------------------------------------ *)
+(* batch_concat                                                                           *)
+(* ------------------------------------------------------------------------------------ *)
+
+Definition sumN (l : list N) : N := fold_right N.add 0 l.
+Lemma sumN_nil : sumN [] = 0.  Proof. reflexivity. Qed.
+Lemma sumN_cons x r : sumN (x :: r) = x + sumN r.  Proof. reflexivity. Qed.
+Global Opaque sumN.
+
+Definition same_dims_as (s0 : shape) (s : shape) : Prop := forall i, get s i = get s0 i.
+
+Lemma batch_concat_loop_spec s0 : wf s0 -> forall rest sum, Forall wf rest ->
+  sum + N.of_nat (length rest) * P32 < P64 ->
+  match batch_concat_loop s0 sum rest with
+  | Some sum' => Forall (same_dims_as s0) rest /\ sum' = sum + sumN (map batch rest)
+  | None => ~ Forall (same_dims_as s0) rest
+  end.
+Proof.
+  intros H0. induction rest as [|s r IH]; intros sum Hr Hsum; cbn [batch_concat_loop map].
+  - split; [constructor|rewrite sumN_nil; lia].
+  - inversion Hr as [|? ? Hs Hr']; subst.
+    pose proof (has_same_dims_spec s0 s H0 Hs) as S1.
+    destruct (has_same_dims s0 s) eqn:E1; cbn [negb].
+    + pose proof (batch_u32 s Hs) as Hbu. cbn [length] in Hsum.
+      rewrite wrap64_small by (unfold u32, P32, P64 in *; lia).
+      specialize (IH (sum + batch s) Hr').
+      assert (Hsum' : sum + batch s + N.of_nat (length r) * P32 < P64)
+        by (unfold u32, P32, P64 in *; lia).
+      specialize (IH Hsum').
+      destruct (batch_concat_loop s0 (sum + batch s) r) as [sum'|].
+      * destruct IH as [A B]. split.
+        -- constructor; [|exact A]. intro i. symmetry. apply S1. reflexivity.
+        -- rewrite sumN_cons. lia.
+      * intro A. apply IH. inversion A; assumption.
+    + intro A. inversion A as [|? ? A1 A2]; subst.
+      enough (X : false = true) by discriminate. apply S1. intro i. symmetry. apply A1.
+Qed.
+
+Definition batch_concat_admissible (xs : list shape) : Prop :=
+  match xs with
+  | [] => False
+  | x0 :: rest => Forall (same_dims_as x0) rest /\
+                  prodN (dims x0) * sumN (map batch xs) < P32
+  end.
+
+(* the C++ loop index is a uint32: the operand count is below 2^32 *)
+Theorem batch_concat_spec xs : Forall wf xs -> u32 (N.of_nat (length xs)) ->
+  match batch_concat xs with
+  | Some r => batch_concat_admissible xs /\ wf r /\ batch r = sumN (map batch xs) /\
+              (forall s, In s xs -> forall i, get r i = get s i)
+  | None => ~ batch_concat_admissible xs
+  end.
+Proof.
+  intros Hxs Hlen. destruct xs as [|x0 rest]; cbn [batch_concat batch_concat_admissible]; [tauto|].
+  inversion Hxs as [|? ? H0 Hr]; subst.
+  pose proof (batch_u32 x0 H0) as Hbu. cbn [length] in Hlen.
+  assert (Hsum : batch x0 + N.of_nat (length rest) * P32 < P64) by (unfold u32, P32, P64 in *; lia).
+  pose proof (batch_concat_loop_spec x0 H0 rest (batch x0) Hr Hsum) as L.
+  destruct (batch_concat_loop x0 (batch x0) rest) as [sum|]; [|tauto].
+  destruct L as [L1 L2]. cbn [map]. rewrite sumN_cons, <- L2.
+  pose proof (prod_pos x0 H0) as Hp.
+  destruct (N.ltb_spec U32MAX sum) as [Hov|Hov].
+  - intros [_ A]. unfold U32MAX, P32 in *. nia.
+  - assert (Hsu : u32 sum) by (unfold u32, U32MAX, P32 in *; lia).
+    pose proof (update_batch_get x0 sum H0 Hsu) as U.
+    destruct (update_batch x0 sum) as [r|].
+    + destruct U as [[_ U1] [Uw [Ub [_ Ug]]]]. split; [tauto|]. split; [exact Uw|]. split; [exact Ub|].
+      intros s [<-|Hin] i; [apply Ug|]. rewrite Ug. symmetry.
+      rewrite Forall_forall in L1. apply (L1 s Hin).
+    + intros [_ A]. apply U. split; [|exact A]. pose proof (wf_batch _ H0). lia.
+Qed.
+
+(* ------------------------------------------------------------------------------------ *)
+(* concat                                                                                 *)
+(* ------------------------------------------------------------------------------------ *)
+
+Definition maxl (l : list N) : N := fold_right N.max 1 l.
+Lemma maxl_nil : maxl [] = 1.  Proof. reflexivity. Qed.
+Lemma maxl_cons x r : maxl (x :: r) = N.max x (maxl r).  Proof. reflexivity. Qed.
+Global Opaque maxl.
+
+Lemma maxl_ge1 l : 1 <= maxl l.
+Proof. induction l; rewrite ?maxl_nil, ?maxl_cons; lia. Qed.
+
+(* `s` agrees with `s0` on every axis except `dim` *)
+Definition same_loo_as (dim : N) (s0 s : shape) : Prop := forall i, i <> dim -> get s i = get s0 i.
+(* the batch of `s` is 1 or M *)
+Definition batch_in (M : N) (s : shape) : Prop := batch s = 1 \/ batch s = M.
+
+Lemma concat_loop_spec dim : u32 dim -> forall rest s0 sum, wf s0 -> Forall wf rest ->
+  sum + N.of_nat (length rest) * P32 < P64 ->
+  match concat_loop s0 sum rest dim with
+  | Some (s0', sum') =>
+      (Forall (same_loo_as dim s0) rest /\
+       Forall (batch_in (maxl (batch s0 :: map batch rest))) (s0 :: rest)) /\
+      wf s0' /\ dims s0' = dims s0 /\ batch s0' = maxl (batch s0 :: map batch rest) /\
+      sum' = sum + sumN (map (fun s => get s dim) rest)
+  | None =>
+      ~ ((Forall (same_loo_as dim s0) rest /\
+          Forall (batch_in (maxl (batch s0 :: map batch rest))) (s0 :: rest)) /\
+         prodN (dims s0) * maxl (batch s0 :: map batch rest) < P32)
+  end.
+Proof.
+  intro Hd. induction rest as [|s r IH]; intros s0 sum H0 Hr Hsum; cbn [concat_loop map].
+  - pose proof (wf_batch _ H0) as Hb0. rewrite maxl_cons, maxl_nil, sumN_nil.
+    replace (N.max (batch s0) 1) with (batch s0) by lia.
+    split; [split; [constructor|constructor; [right; reflexivity|constructor]]|].
+    split; [exact H0|]. split; [reflexivity|]. split; [reflexivity|lia].
+  - inversion Hr as [|? ? Hs Hr']; subst.
+    pose proof (wf_batch _ H0) as Hb0. pose proof (wf_batch _ Hs) as Hbs.
+    pose proof (maxl_ge1 (map batch r)) as Hmr.
+    rewrite !maxl_cons. set (mr := maxl (map batch r)) in *.
+    pose proof (has_same_loo_dims_spec s0 s dim H0 Hs Hd) as S1.
+    pose proof (has_compatible_batch_spec s0 s) as S2.
+    destruct (has_same_loo_dims s0 s dim) eqn:E1; cbn [negb orb].
+    2: { intros [[A _] _]. inversion A as [|? ? A1 A2]; subst.
+         enough (X : false = true) by discriminate. apply S1. intros i Hi. symmetry. apply A1. exact Hi. }
+    destruct (has_compatible_batch s0 s) eqn:E2; cbn [negb].
+    2: { intros [[_ A] _]. inversion A as [|? ? A1 A2]; subst. inversion A2 as [|? ? A3 A4]; subst.
+         unfold batch_in in A1, A3.
+         enough (X : false = true) by discriminate. apply S2. lia. }
+    assert (Hloo : same_loo_as dim s0 s)
+      by (intros i Hi; symmetry; apply S1; [reflexivity|exact Hi]).
+    assert (Hc : batch s0 = batch s \/ batch s0 = 1 \/ batch s = 1) by (apply S2; reflexivity).
+    pose proof (get_u32 s dim Hs) as Hgu. cbn [length] in Hsum.
+    rewrite wrap64_small by (unfold u32, P32, P64 in *; lia).
+    assert (Hsum' : sum + get s dim + N.of_nat (length r) * P32 < P64)
+      by (unfold u32, P32, P64 in *; lia).
+    unfold has_batch.
+    destruct (N.ltb_spec 1 (batch s0)) as [Hhb|Hhb].
+    + (* s0 keeps its batch *)
+      specialize (IH s0 (sum + get s dim) H0 Hr' Hsum'). rewrite maxl_cons in IH. fold mr in IH.
+      assert (EM : N.max (batch s0) (N.max (batch s) mr) = N.max (batch s0) mr) by lia.
+      rewrite EM.
+      destruct (concat_loop s0 (sum + get s dim) r dim) as [[s0' sum']|].
+      * destruct IH as [[I1 I2] [Iw [Id [Ib Is]]]].
+        split; [split|].
+        -- constructor; assumption.
+        -- inversion I2 as [|? ? I3 I4]; subst. constructor; [exact I3|]. constructor; [|exact I4].
+           unfold batch_in in *. lia.
+        -- split; [exact Iw|]. split; [exact Id|]. split; [exact Ib|]. rewrite sumN_cons. lia.
+      * intros [[A1 A2] A3]. apply IH. split; [split|exact A3].
+        -- inversion A1; assumption.
+        -- inversion A2 as [|? ? A4 A5]; subst. inversion A5; subst. constructor; assumption.
+    + (* s0 takes the batch of s *)
+      assert (Eb0 : batch s0 = 1) by lia.
+      pose proof (update_batch_get s0 (batch s) H0 (batch_u32 _ Hs)) as U.
+      assert (EM : N.max (batch s0) (N.max (batch s) mr) = N.max (batch s) mr) by lia.
+      rewrite EM.
+      destruct (update_batch s0 (batch s)) as [s1|].
+      * destruct U as [_ [Uw [Ub [Ud Ug]]]].
+        specialize (IH s1 (sum + get s dim) Uw Hr' Hsum'). rewrite maxl_cons, Ub in IH. fold mr in IH.
+        assert (Hl : forall t, same_loo_as dim s1 t <-> same_loo_as dim s0 t).
+        { intro t. unfold same_loo_as. split; intros A i Hi; [rewrite <- Ug|rewrite Ug]; apply A; exact Hi. }
+        destruct (concat_loop s1 (sum + get s dim) r dim) as [[s0' sum']|].
+        -- destruct IH as [[I1 I2] [Iw [Id [Ib Is]]]].
+           split; [split|].
+           ++ constructor; [exact Hloo|]. eapply Forall_impl; [|exact I1]. intros t Ht. apply Hl; exact Ht.
+           ++ inversion I2 as [|? ? I3 I4]; subst. constructor; [left; exact Eb0|].
+              constructor; [|exact I4]. unfold batch_in in *. rewrite Ub in I3. exact I3.
+           ++ split; [exact Iw|]. split; [congruence|]. split; [exact Ib|]. rewrite sumN_cons. lia.
+        -- intros [[A1 A2] A3]. apply IH. split; [split|].
+           ++ inversion A1 as [|? ? A4 A5]; subst. eapply Forall_impl; [|exact A5]. intros t Ht. apply Hl; exact Ht.
+           ++ inversion A2 as [|? ? A4 A5]; subst. inversion A5 as [|? ? A6 A7]; subst.
+              constructor; [|exact A7]. unfold batch_in in *. rewrite Ub. exact A6.
+           ++ rewrite Ud. exact A3.
+      * intros [_ A3]. apply U. split; [lia|].
+        assert (Hle : prodN (dims s0) * batch s <= prodN (dims s0) * N.max (batch s) mr)
+          by (apply N.mul_le_mono_l; lia).
+        lia.
+Qed.
+
+Definition concat_admissible (xs : list shape) (dim : N) : Prop :=
+  match xs with
+  | [] => False
+  | x0 :: rest =>
+      Forall (same_loo_as dim x0) rest /\
+      Forall (batch_in (maxl (map batch xs))) xs /\
+      dim < 8 /\
+      prodN (dims x0) / get x0 dim * sumN (map (fun s => get s dim) xs) * maxl (map batch xs) < P32
+  end.
+
+(* the C++ loop index is a uint32: the operand count is below 2^32 *)
+Theorem concat_spec xs dim : Forall wf xs -> u32 (N.of_nat (length xs)) -> u32 dim ->
+  match concat xs dim with
+  | Some r => concat_admissible xs dim /\ wf r /\ batch r = maxl (map batch xs) /\
+              get r dim = sumN (map (fun s => get s dim) xs) /\
+              (forall s, In s xs -> forall i, i <> dim -> get r i = get s i)
+  | None => ~ concat_admissible xs dim
+  end.
+Proof.
+  intros Hxs Hlen Hd. destruct xs as [|x0 rest]; cbn [concat concat_admissible]; [tauto|].
+  inversion Hxs as [|? ? H0 Hr]; subst.
+  pose proof (get_u32 x0 dim H0) as Hgu. pose proof (get_pos x0 dim H0) as Hg. cbn [length] in Hlen.
+  assert (Hsum : get x0 dim + N.of_nat (length rest) * P32 < P64) by (unfold u32, P32, P64 in *; lia).
+  pose proof (concat_loop_spec dim Hd rest x0 (get x0 dim) H0 Hr Hsum) as L.
+  cbn [map]. rewrite sumN_cons.
+  set (M := maxl (batch x0 :: map batch rest)) in *.
+  set (S := sumN (map (fun s => get s dim) rest)) in *.
+  pose proof (prod_div_get x0 dim H0) as Eq. pose proof (prod_div_get_pos x0 dim H0) as Hq.
+  set (q := prodN (dims x0) / get x0 dim) in *.
+  assert (HM : 1 <= M) by apply maxl_ge1.
+  destruct (concat_loop x0 (get x0 dim) rest dim) as [[s0 sum]|].
+  - destruct L as [[L1 L2] [Lw [Ld [Lb ->]]]].
+    destruct (N.ltb_spec U32MAX (get x0 dim + S)) as [Hov|Hov].
+    + intros [_ [_ [_ A]]]. unfold U32MAX, P32 in *.
+      assert (get x0 dim + S <= q * (get x0 dim + S)) by nia.
+      assert (q * (get x0 dim + S) <= q * (get x0 dim + S) * M) by nia. lia.
+    + assert (Hsu : u32 (get x0 dim + S)) by (unfold u32, U32MAX, P32 in *; lia).
+      pose proof (update_dim_spec s0 dim (get x0 dim + S) Lw Hd Hsu) as U.
+      unfold update_dim_admissible in U.
+      rewrite (get_dims_eq s0 x0 dim Ld), Ld, Lb in U. fold q in U.
+      destruct (update_dim s0 dim (get x0 dim + S)) as [r|].
+      * destruct U as [[U1 [U2 U3]] [Uw [Ub [Ug _]]]].
+        split; [tauto|]. split; [exact Uw|]. split; [congruence|]. split.
+        -- rewrite Ug, N.eqb_refl. reflexivity.
+        -- intros s Hin i Hi. rewrite Ug. destruct (N.eqb_spec i dim) as [E|_]; [contradiction|].
+           rewrite (get_dims_eq s0 x0 i Ld). destruct Hin as [<-|Hin]; [reflexivity|].
+           rewrite Forall_forall in L1. symmetry. apply (L1 s Hin i Hi).
+      * intros [_ [_ [A3 A4]]]. apply U. split; [exact A3|]. split; [lia|exact A4].
+  - intros [A1 [A2 [_ A4]]]. apply L. split; [split; assumption|].
+    rewrite <- Eq.
+    assert (q * get x0 dim <= q * (get x0 dim + S)) by (apply N.mul_le_mono_l; lia).
+    assert (q * get x0 dim * M <= q * (get x0 dim + S) * M) by (apply N.mul_le_mono_r; assumption).
+    lia.
+Qed.
